@@ -399,7 +399,7 @@ class GitView:
             out["symref"][parts[0].decode()] = parts[2].decode() if len(parts) > 2 else ""
         out["for_each_ref"] = fer
         if head_ok:
-            p = subprocess.run(["git", "symbolic-ref", "-q", "HEAD"], env=self.env, capture_output=True)
+            p = subprocess.run(["git", "symbolic-ref", "-q", "--no-recurse", "HEAD"], env=self.env, capture_output=True)
             out["head_sym"] = p.stdout.strip().decode() if p.returncode == 0 else None
         else:
             out["refs"].pop("HEAD", None)
